@@ -149,7 +149,7 @@ func simpleExec(srv *simple.Nfs, c sCall) string {
 		r := srv.NFSPROC3_READ(nfstypes.READ3args{File: fh, Offset: nfstypes.Offset3(c.off), Count: nfstypes.Count3(c.cnt)})
 		return fmt.Sprintf("P %d 0 0 %d %d %s", r.Status, uint64(r.Resok.Count), b2i(r.Resok.Eof), hexs(r.Resok.Data))
 	case "write":
-		r := srv.NFSPROC3_WRITE(nfstypes.WRITE3args{File: fh, Offset: nfstypes.Offset3(c.off), Count: nfstypes.Count3(c.cnt), Stable: nfstypes.FILE_SYNC, Data: c.data})
+		r := srv.NFSPROC3_WRITE(nfstypes.WRITE3args{File: fh, Offset: nfstypes.Offset3(c.off), Count: nfstypes.Count3(c.cnt), Stable: nfstypes.Stable_how(uint32(len(c.data)+int(c.off)) % 3), Data: c.data})
 		return fmt.Sprintf("P %d 0 0 %d %d -", r.Status, uint64(r.Resok.Count), uint64(r.Resok.Committed))
 	}
 	panic("proc")
